@@ -124,6 +124,9 @@ package backend
 // A name without "." / ".." segments, and an id that is a single path element, are opaque to the file system: joining
 // them below a directory stays below it (property of path resolution, trusted). The two predicates are specified over
 // the segments / bytes of the name, independent of how they are computed.
+// an empty segment (leading "/" or "//") is dropped by the file system: the name would alias another name
+//@ func HasEmptySegment
+//@   pure
 //@ func HasDotSegment
 //@   pure
 //@   ensures {C04} [no-segment-is-dot-or-dotdot] !ret0 ==> forall i int :: 0 <= i && i < len(strings.Split(name, "/")) ==> strings.Split(name, "/")[i] != "." && strings.Split(name, "/")[i] != ".."
@@ -134,6 +137,7 @@ package backend
 // A copy source is accepted only if bucket/key carry no dot segment and the version id is a single path element.
 //@ func ParseCopySource
 //@   ensures {C04} [copy-source-is-opaque] err == nil ==> IsPathComponent(ret2) && !HasDotSegment(ret0 + "/" + ret1)
+//@   ensures {C03,C04,C10} [copy-source-has-no-empty-segment] err == nil ==> !HasEmptySegment(ret0 + "/" + ret1)
 //@ func GetStringFromPtr
 //@   pure
 
